@@ -45,7 +45,7 @@ func (srv *Srv) NewConn(c net.Conn) {
 
 func (conn *Conn) close() {
 	verifPoint("close.enter", conn)
-	conn.done <- true
+	close(conn.done)
 	verifPoint("close.stopped", conn)
 	conn.Srv.Lock()
 	delete(conn.Srv.conns, conn)
